@@ -16,6 +16,23 @@ CLAIMED = {
             'z3; proxy models of str methods and the \\s+ split (validated '
             'per run by witness replay on the unshimmed code); bounds as '
             'listed in the evidence file'),
+    'C02': ('5/C02', 'every rejected token sequence up to the bound, every '
+            'rule text up to the length bound over a hostile alphabet, and '
+            'every non-rule value type (alone / inside list rules; from_dict, '
+            'JSON and YAML loading) yields a check object that denies for '
+            'all leaf outcomes and role subsets, or is rejected at load',
+            'z3; reference tokenizer/grammar in oracle/; SymStr models '
+            'validated by witness replay; bounds in the evidence file'),
+    'C03': ('5/C03', 'the full default-rule configuration table x defined-'
+            'name subsets x queried names, each row decided for every '
+            'outcome of every rule body (symbolic leaves)',
+            'z3; the table itself is finite and enumerated under solver '
+            'control'),
+    'C11': ('5/C11', 'every row of the deprecation override table through '
+            'real files and the real load path, each decided for all role '
+            'subsets by one equivalence query per policy name',
+            'z3; real file system and oslo.config are used as they are; '
+            'don\'t-care regions as stated in the property'),
 }
 
 PENDING_REASON = ('check not built yet in this session (work in progress; '
